@@ -537,6 +537,27 @@ pub fn run<W: Write>(prop: &str, opts: &Opts, out: &mut W) {
             }
             "C01" | "C02" | "C04" => {
                 many_entries(out, prop, &mut rng);
+                // several movie boxes around a gap: only the last one is returned, and only it may count for the padding /
+                // displacement decision (gaps from 'too small for a free box' to 'larger than the metadata')
+                {
+                    let ftyp = bx(b"ftyp", &ftyp_payload(&mut rng, true, 2, 0), Enc::S32);
+                    let last = valid_moov(&mut rng);
+                    let early = valid_moov(&mut rng);
+                    let meta = (ftyp.len() + last.len()) as u64;
+                    for gap in [0u64, 7, 8, 9, 16, meta / 2, meta - 1, meta, meta + 1, meta + 8 + early.len() as u64, 2 * meta + 24, 100_000] {
+                        let gapbox = if gap >= 8 { bx(b"free", &vec![0; (gap - 8) as usize], Enc::S32) } else { vec![] };
+                        for (lname, parts) in [
+                            ("early-gap", vec![ftyp.clone(), early.clone(), gapbox.clone(), bx(b"mdat", &[1, 2, 3, 4, 5], Enc::S32), last.clone()]),
+                            ("gap-mid", vec![ftyp.clone(), gapbox.clone(), bx(b"mdat", &[1, 2, 3, 4, 5], Enc::S32), early.clone(), last.clone()]),
+                            ("early-early-gap", vec![ftyp.clone(), early.clone(), early.clone(), gapbox.clone(), bx(b"mdat", &[9, 8, 7], Enc::S32), last.clone()]),
+                        ] {
+                            let s = Sparse::from_bytes(&parts.concat());
+                            for kind in [Kind::Seekable, Kind::Strict] {
+                                emit(out, prop, &format!("multi-moov-{lname}-gap{gap}-{}", kind.name()), &s, &Cfg::default(), kind);
+                            }
+                        }
+                    }
+                }
                 // every malformed-moov family in the REWRITE layout: the unchanged code refuses them; a change that lets one
                 // through rewrites (or fails to rewrite) bytes the walker cannot attribute to a table
                 for (name, mp) in moov_mutants(&mut rng) {
